@@ -84,6 +84,12 @@ func RunSched(r *Run, spec SchedSpec) *vsync.Stats {
 	root, ok := decode(rootRes[0])
 	if !ok {
 		r.Cap(spec.Name + ": root execution failed: " + rootRes[0].Err)
+		if strings.Contains(rootRes[0].Err, "worker died") {
+			// the default schedule (no preemption at all) terminates the process: not a matter of budget
+			r.AddViolation(Violation{Key: spec.Name + ":process-dies|default schedule", Engine: "SCHED:" + spec.Name,
+				What:   "running the scenario under the default schedule (no preemption) terminates the worker process with an unrecoverable error: " + rootRes[0].Err,
+				Replay: map[string]interface{}{"worker": spec.WorkerArgs, "scenario": spec.Scenario, "choices": []int{}, "horizon": spec.Horizon}})
+		}
 		return total
 	}
 	total.Merge(root.Stats)
@@ -110,6 +116,11 @@ func RunSched(r *Run, spec SchedSpec) *vsync.Stats {
 				total.Merge(sr.Stats)
 			} else {
 				r.Cap(fmt.Sprintf("%s: subtree task failed twice (%s): %s", spec.Name, res.Err, string(retry[i])[:120]))
+				if strings.Contains(res.Err, "worker died") {
+					r.AddViolation(Violation{Key: spec.Name + ":process-dies|subtree", Engine: "SCHED:" + spec.Name,
+						What:   "exploring a subtree of schedules terminated the worker process twice with an unrecoverable error (" + res.Err + "); task " + string(retry[i]),
+						Replay: map[string]interface{}{"worker": spec.WorkerArgs, "scenario": spec.Scenario, "task": json.RawMessage(retry[i]), "horizon": spec.Horizon}})
+				}
 			}
 		}
 	}
